@@ -6,34 +6,37 @@ From VGI Require Import M_Codec L_Codec G_Codec P_C18.
 Import ListNotations.
 Open Scope Z_scope.
 
-Lemma codec_params_tie : gen_params = std_params gen_eof_check.
+Lemma codec_params_tie : gen_params = std_params gen_knobs.
 Proof. reflexivity. Qed.
+
+Lemma codec_chunk_ok : 1 <= k_chunk gen_knobs.
+Proof. apply Z.leb_le. vm_compute. reflexivity. Qed.
 
 (* the theorems restated over the regenerated parameters: these are the statements about the source *)
 Theorem C18_source_roundtrip_cap : forall E, codec_laws gen_params E ->
   forall e lvl d cap, e <> Identity -> 0 <= cap ->
     decompress gen_params E e (compress gen_params E e d lvl) (Some cap) =
       if len d <=? cap then Ok d else LimitErr.
-Proof. rewrite codec_params_tie. exact (C18_roundtrip_cap gen_eof_check). Qed.
+Proof. rewrite codec_params_tie. exact (C18_roundtrip_cap gen_knobs codec_chunk_ok). Qed.
 
 Theorem C18_source_roundtrip_nocap : forall E, codec_laws gen_params E ->
   forall e lvl d, decompress gen_params E e (compress gen_params E e d lvl) None = Ok d.
-Proof. rewrite codec_params_tie. exact (C18_roundtrip_nocap gen_eof_check). Qed.
+Proof. rewrite codec_params_tie. exact (C18_roundtrip_nocap gen_knobs). Qed.
 
 Theorem C18_source_zstd_frame_cap : forall E f d cap,
   zstd_frame_of gen_params E f d -> 0 <= cap ->
   decompress gen_params E Zstd f (Some cap) = if len d <=? cap then Ok d else LimitErr.
-Proof. rewrite codec_params_tie. exact (C18_zstd_frame_cap gen_eof_check). Qed.
+Proof. rewrite codec_params_tie. exact (C18_zstd_frame_cap gen_knobs codec_chunk_ok). Qed.
 
 Theorem C18_source_gzip_frame_cap : forall E f d cap,
   gz_frame_of gen_params E f d -> 0 <= cap ->
   decompress gen_params E Gzip f (Some cap) = if len d <=? cap then Ok d else LimitErr.
-Proof. rewrite codec_params_tie. exact (C18_gzip_frame_cap gen_eof_check). Qed.
+Proof. rewrite codec_params_tie. exact (C18_gzip_frame_cap gen_knobs codec_chunk_ok). Qed.
 
 Theorem C18_source_unknown_size_sentinel : forall raw,
   zstd_content_size gen_params raw = None <-> raw = -1 \/ raw = 18446744073709551615.
-Proof. rewrite codec_params_tie. exact (C18_unknown_size_sentinel gen_eof_check). Qed.
+Proof. rewrite codec_params_tie. exact (C18_unknown_size_sentinel gen_knobs). Qed.
 
 Theorem C18_source_requests_bounded : forall E e f cap, 0 <= cap ->
-  Forall (fun n => 1 <= n <= Z.min 65536 (cap + 1)) (snd (decompress_tr gen_params E e f (Some cap))).
-Proof. rewrite codec_params_tie. exact (C18_requests_bounded gen_eof_check). Qed.
+  Forall (fun n => 1 <= n <= Z.min (k_chunk gen_knobs) (cap + 1)) (snd (decompress_tr gen_params E e f (Some cap))).
+Proof. rewrite codec_params_tie. exact (C18_requests_bounded gen_knobs codec_chunk_ok). Qed.
